@@ -1236,6 +1236,8 @@ class Interp(object):
                 return c.get_item(self, obj, idx)
         if hasattr(obj, 'get_item'):
             return obj.get_item(self, idx)
+        if isinstance(obj, (bool, int, float)) or (is_sym(obj) and not isinstance(obj, z3.SeqRef)):
+            self.raise_('TypeError', 'object is not subscriptable')
         raise Undecided('subscript of %r' % (obj,))
 
     def nmap_select(self, c, node):
